@@ -78,9 +78,9 @@ Proof. apply eqb_sym_of_eq. apply ckey_eqb_eq. Qed.
 Lemma stripped_eqb_sym : forall a b, stripped_eqb a b = stripped_eqb b a.
 Proof.
   intros a b. destruct (stripped_eqb a b) eqn:E1; destruct (stripped_eqb b a) eqn:E2; try reflexivity.
-  - apply stripped_eqb_iff in E1. destruct E1 as [? [? ?]].
+  - apply stripped_eqb_iff in E1. destruct E1 as [? [? [? ?]]].
     assert (stripped_eqb b a = true) by (apply stripped_eqb_iff; auto). congruence.
-  - apply stripped_eqb_iff in E2. destruct E2 as [? [? ?]].
+  - apply stripped_eqb_iff in E2. destruct E2 as [? [? [? ?]]].
     assert (stripped_eqb a b = true) by (apply stripped_eqb_iff; auto). congruence.
 Qed.
 
@@ -188,7 +188,7 @@ Section StableTy.
     Variable extra : ty -> bool.   (* an additional subterm-closed requirement *)
     Hypothesis extra_sub : forall t, extra t = true ->
       match t with
-      | TUnion ts | TGen _ _ ts | TTup _ _ ts | TCall _ _ ts => forallb extra ts = true
+      | TUnion ts | TGen _ _ ts | TTup _ _ ts | TCall _ _ ts | TVar _ _ _ ts => forallb extra ts = true
       | _ => True
       end.
     Hypothesis fU_id : forall ts, union_facts ts -> fU ts = TUnion ts.
@@ -212,19 +212,20 @@ Section StableTy.
         pose proof (extra_sub _ X) as Xs. simpl in Xs. rewrite (Ch ps H0 S3 Xs), fB_id. reflexivity.
       - simpl in S. rewrite !andb_true_iff in S. destruct S as [S1 S3]. apply kind_eqb_eq in S1. subst k.
         pose proof (extra_sub _ X) as Xs. simpl in Xs. rewrite (Ch ps H0 S3 Xs), fB_id. reflexivity.
+      - simpl in S. pose proof (extra_sub _ X) as Xs. simpl in Xs. rewrite (Ch ps H0 S Xs). reflexivity.
     Qed.
   End VisitId.
 
   Definition no_extra (t : ty) : bool := true.
   Lemma no_extra_sub : forall t, no_extra t = true ->
     match t with
-    | TUnion ts | TGen _ _ ts | TTup _ _ ts | TCall _ _ ts => forallb no_extra ts = true
+    | TUnion ts | TGen _ _ ts | TTup _ _ ts | TCall _ _ ts | TVar _ _ _ ts => forallb no_extra ts = true
     | _ => True
     end.
   Proof. intros t _. destruct t; try exact I; apply forallb_forall; intros; reflexivity. Qed.
   Lemma nco_sub : forall t, no_class_object t = true ->
     match t with
-    | TUnion ts | TGen _ _ ts | TTup _ _ ts | TCall _ _ ts => forallb no_class_object ts = true
+    | TUnion ts | TGen _ _ ts | TTup _ _ ts | TCall _ _ ts | TVar _ _ _ ts => forallb no_class_object ts = true
     | _ => True
     end.
   Proof. intros t E. destruct t; try exact I; exact E. Qed.
@@ -295,6 +296,7 @@ Section StableTy.
       rewrite (Ch ps f H0 S3) by lia. reflexivity.
     - simpl in S. rewrite !andb_true_iff in S. destruct S as [S1 S3]. simpl in L.
       rewrite (Ch ps f H0 S3) by lia. reflexivity.
+    - simpl in S. simpl in L. rewrite (Ch ps f H0 S) by lia. reflexivity.
   Qed.
   Lemma stable_cc_top : forall t, st t = true -> cc_top t = Some t.
   Proof. intros t S. unfold cc_top. apply stable_cc; [assumption | lia]. Qed.
@@ -331,20 +333,22 @@ Section StableUnit.
     option_map (map_param f) p = p.
   Proof. intros f [p|] S Hf; simpl; [rewrite map_param_id; auto | reflexivity]. Qed.
 
-  Lemma map_sig3_id : forall fp fr fe s, stable_sig st s = true ->
+  Lemma map_sig3_id : forall fp fr fe ft s, stable_sig st s = true ->
     (forall t, st t = true -> fp t = t) ->
     (forall t, st t = true -> no_class_object t = true -> fr t = t) ->
     (forall t, st t = true -> fe t = t) ->
-    map_sig3 fp fr fe s = s.
+    (forall t, st t = true -> ft t = t) ->
+    map_sig4 fp fr fe ft s = s.
   Proof.
-    intros fp fr fe [ps sa ss r ex] S Hp Hr He. unfold stable_sig in S; simpl in S.
-    rewrite !andb_true_iff in S. destruct S as [[[[[[S1 S2] S3] S4] S5] S6] S7].
-    unfold map_sig3; simpl. f_equal.
+    intros fp fr fe ft [ps sa ss r ex tm] S Hp Hr He Ht. unfold stable_sig in S; simpl in S.
+    rewrite !andb_true_iff in S. destruct S as [[[[[[[S1 S2] S3] S4] S5] S6] S7] S8].
+    unfold map_sig4; simpl. f_equal.
     - apply map_id_in. intros p Hin. apply map_param_id; [|assumption]. rewrite forallb_forall in S1; auto.
     - apply map_oparam_id; assumption.
     - apply map_oparam_id; assumption.
     - apply Hr; assumption.
     - apply map_id_in. intros t Hin. apply He. rewrite forallb_forall in S6; auto.
+    - apply map_id_in. intros t Hin. apply Ht. rewrite forallb_forall in S8; auto.
   Qed.
 
   Lemma map_func_id : forall g f, (forall s, In s (f_sigs f) -> g s = s) -> map_func g f = f.
@@ -355,10 +359,11 @@ Section StableUnit.
     intros f [n t] S Hf. unfold stable_const in S; simpl in S. apply andb_true_iff in S. destruct S.
     unfold map_const; simpl. rewrite Hf; auto.
   Qed.
-  Lemma map_class_id : forall gf gc c,
+  Lemma map_class_id : forall gf gc ft c,
     (forall f, In f (cl_methods c) -> gf (cl_name c) f = f) ->
-    (forall k, In k (cl_consts c) -> gc k = k) -> map_class gf gc c = c.
-  Proof. intros gf gc [n b ms cs] Hf Hc. unfold map_class; simpl in *. rewrite !map_id_in; auto. Qed.
+    (forall k, In k (cl_consts c) -> gc k = k) ->
+    (forall t, In t (cl_template c) -> ft t = t) -> map_class_t gf gc ft c = c.
+  Proof. intros gf gc ft [n b ms cs tm] Hf Hc Ht. unfold map_class_t; simpl in *. rewrite !map_id_in; auto. Qed.
 
   Definition stable_parts (u : unit_) : Prop :=
     forallb (stable_const st) (u_consts u) = true /\ forallb (stable_class kk st) (u_classes u) = true /\
@@ -374,36 +379,43 @@ Section StableUnit.
     (forall k, In k (cl_consts c) -> stable_const st k = true) /\
     forallb (fun b => kind_eqb (fst b) kk) (cl_bases c) = true.
   Proof.
-    intros c S. unfold stable_class in S. rewrite !andb_true_iff in S. destruct S as [[S1 S2] S3].
+    intros c S. unfold stable_class in S. rewrite !andb_true_iff in S. destruct S as [[[S1 S2] S3] S4].
     rewrite forallb_forall in S1, S2. split; [|split; [auto | assumption]].
     intros f Hf. specialize (S1 f Hf). apply andb_true_iff in S1. exact S1.
   Qed.
 
-  Lemma unit_map_id : forall gc gm gcc gf u, stable_parts u ->
+  Lemma stable_class_template : forall c, stable_class kk st c = true -> forallb st (cl_template c) = true.
+  Proof. intros c S. unfold stable_class in S. rewrite !andb_true_iff in S. tauto. Qed.
+
+  Lemma unit_map_id : forall gc gm gcc gf ft u, stable_parts u ->
     (forall c, stable_const st c = true -> gc c = c) ->
     (forall cls f, stable_func st f = true -> forallb (self_plain cls) (f_sigs f) = true -> gm cls f = f) ->
     (forall c, stable_const st c = true -> gcc c = c) ->
     (forall f, stable_func st f = true -> gf f = f) ->
-    unit_map gc gm gcc gf u = u.
+    (forall t, st t = true -> ft t = t) ->
+    unit_map_t gc gm gcc gf ft u = u.
   Proof.
-    intros gc gm gcc gf [cs cls fs] [S1 [S2 S3]] Hc Hm Hcc Hf. simpl in *.
-    rewrite forallb_forall in S1, S2, S3. unfold unit_map; simpl. f_equal.
+    intros gc gm gcc gf ft [cs cls fs] [S1 [S2 S3]] Hc Hm Hcc Hf Ht. simpl in *.
+    rewrite forallb_forall in S1, S2, S3. unfold unit_map_t; simpl. f_equal.
     - apply map_id_in. auto.
     - apply map_id_in. intros c Hin. destruct (stable_class_parts c (S2 c Hin)) as [M [K _]].
       apply map_class_id.
       + intros f Hf'. destruct (M f Hf'). apply Hm; assumption.
       + intros k Hk. apply Hcc. auto.
+      + intros t Hin'. apply Ht. pose proof (stable_class_template c (S2 c Hin)) as T.
+        rewrite forallb_forall in T. auto.
     - apply map_id_in. auto.
   Qed.
 
-  Lemma map_unit4_id : forall fp fr fe fc u, stable_parts u ->
+  Lemma map_unit4_id : forall fp fr fe fc ft u, stable_parts u ->
     (forall t, st t = true -> fp t = t) ->
     (forall t, st t = true -> no_class_object t = true -> fr t = t) ->
     (forall t, st t = true -> fe t = t) ->
     (forall t, st t = true -> no_class_object t = true -> fc t = t) ->
-    map_unit4 fp fr fe fc u = u.
+    (forall t, st t = true -> ft t = t) ->
+    map_unit5 fp fr fe fc ft u = u.
   Proof.
-    intros fp fr fe fc u S Hp Hr He Hc. rewrite map_unit4_eq. apply unit_map_id; try assumption.
+    intros fp fr fe fc ft u S Hp Hr He Hc Ht. rewrite map_unit4_eq. apply unit_map_id; try assumption.
     - intros c Sc. apply map_const_id; assumption.
     - intros cls f Sf _. apply map_func_id. intros s Hs. apply map_sig3_id; try assumption.
       eapply stable_func_sigs; eassumption.
@@ -433,8 +445,8 @@ Section StableUnit.
     rewrite (dedup_by_distinct stripped_eqb stripped_eqb_sym _ D).
     apply map_id_in. intros s0 Hin. unfold combine_group.
     rewrite (filter_distinct stripped_eqb stripped_eqb_refl stripped_eqb_sym _ D s0 Hin). simpl.
-    specialize (Ss s0 Hin). destruct s0 as [ps sa ss r ex]. unfold stable_sig in Ss; simpl in Ss.
-    rewrite !andb_true_iff in Ss. destruct Ss as [[[[[[S1 S2] S3] S4] S5] S6] S7]. simpl.
+    specialize (Ss s0 Hin). destruct s0 as [ps sa ss r ex tm]. unfold stable_sig in Ss; simpl in Ss.
+    rewrite !andb_true_iff in Ss. destruct Ss as [[[[[[[S1 S2] S3] S4] S5] S6] S7] S8]. simpl.
     rewrite app_nil_r. f_equal.
     - unfold dedup_py, dedup_by; simpl. apply (stable_join1 H deps maxu kk). assumption.
     - unfold dedup_py, dedup_by. apply (dedup_from_distinct py_eqb (fun a b => py_eqb b a)); auto.
@@ -468,14 +480,14 @@ Proof.
   set (H := hier_of u ++ Hd) in *.
   destruct p; simpl; simpl in G.
   - (* NormalizeGenericSelfTypes *)
-    f_equal. rewrite normalize_self_eq. eapply unit_map_id; [exact P | auto | | auto | auto].
+    f_equal. rewrite normalize_self_eq. eapply unit_map_id; [exact P | auto | | auto | auto | reflexivity].
     intros cls f Sf Sp. apply map_func_id. intros s Hs. apply stable_normalize_self_sig.
     rewrite forallb_forall in Sp. auto.
-  - f_equal. rewrite map_funcs_unit_eq. eapply unit_map_id; [exact P | auto | | auto | ].
+  - f_equal. rewrite map_funcs_unit_eq. eapply unit_map_id; [exact P | auto | | auto | | reflexivity].
     + intros cls f Sf _. eapply stable_remove_duplicates; eassumption.
     + intros f Sf. eapply stable_remove_duplicates; eassumption.
   - f_equal. eapply map_ty_unit_id; [exact P|]. intros; eapply stable_simplify_unions; eassumption.
-  - f_equal. rewrite map_funcs_unit_eq. eapply unit_map_id; [exact P | auto | | auto | ].
+  - f_equal. rewrite map_funcs_unit_eq. eapply unit_map_id; [exact P | auto | | auto | | reflexivity].
     + intros cls f Sf _. eapply stable_combine_returns; eassumption.
     + intros f Sf. eapply stable_combine_returns; eassumption.
   - (* CombineContainers *)
@@ -487,7 +499,7 @@ Proof.
                    In t (types_of_func f) -> stable_ty H (o_deps o) (o_max_union o) kk t = true).
       { intros f Sf Hf. unfold types_of_func in Hf. apply in_flat_map in Hf. destruct Hf as [s [Hs Hts]].
         pose proof (stable_func_sigs _ _ _ _ _ Sf s Hs) as Ss. unfold stable_sig in Ss.
-        rewrite !andb_true_iff in Ss. destruct Ss as [[[[[[S1 S2] S3] S4] S5] S6] S7].
+        rewrite !andb_true_iff in Ss. destruct Ss as [[[[[[[S1 S2] S3] S4] S5] S6] S7] S8].
         assert (Pm : forall p, stable_param (stable_ty H (o_deps o) (o_max_union o) kk) p = true ->
                      In t (types_of_param p) -> stable_ty H (o_deps o) (o_max_union o) kk t = true).
         { intros p Sp Hp. unfold stable_param in Sp. apply andb_true_iff in Sp. destruct Sp as [Sp1 Sp2].
@@ -521,7 +533,7 @@ Proof.
     apply Nat.eqb_neq in D.
     f_equal. eapply map_ty_unit_id; [exact P|]. intros; apply (stable_collapse_long_unions H (o_deps o) (o_max_union o) kk); assumption.
   - (* AdjustReturnAndConstantGenericType *)
-    f_equal. unfold adjust_return_and_constant. eapply map_unit4_id; [exact P | | | |]; try (intros; reflexivity);
+    f_equal. unfold adjust_return_and_constant. eapply map_unit4_id; [exact P | | | | |]; try (intros; reflexivity);
       intros; eapply stable_adjust_generic_type; eassumption.
   - pose proof (has_flag_enabled o FRemoveMutable fl G En) as D. simpl in D. congruence.
   - pose proof (has_flag_enabled o FRemoveMutable fl G En) as D. simpl in D. congruence.
@@ -536,7 +548,7 @@ Proof.
     destruct u as [ucs cls fs]; simpl. f_equal.
     destruct P as [_ [P2 _]]. simpl in P2. rewrite forallb_forall in P2.
     apply map_id_in. intros c Hc. destruct (stable_class_parts _ _ _ _ _ (P2 c Hc)) as [_ [_ B]].
-    destruct c as [n bs ms ks]; simpl in *. f_equal. apply map_id_in. intros [bk bc] Hb.
+    destruct c as [n bs ms ks tm]; simpl in *. f_equal. apply map_id_in. intros [bk bc] Hb.
     rewrite forallb_forall in B. specialize (B _ Hb). simpl in B. apply kind_eqb_eq in B. subst. reflexivity.
 Qed.
 
